@@ -56,7 +56,7 @@ From Sessions Require Import Model.Base Model.Sess Model.Hist Model.Corr Proofs.
   Proofs.HistInv Proofs.HistInv2 Proofs.HistInv3 Proofs.HistLift Proofs.HistLift3 Proofs.HistLift4
   Proofs.IsoLaws Proofs.DeadLaws Proofs.C01Spec
   Proofs.Lineage Proofs.Lineage2 Proofs.Lineage3 Proofs.Lineage4 Proofs.Lineage5 Proofs.Lineage6
-  Proofs.LineageK Proofs.LineageK2 Proofs.LineageK3 Proofs.LineageK4 Proofs.LineageE Proofs.LineageE2 Proofs.LineageKEx.
+  Proofs.LineageK Proofs.LineageK2 Proofs.LineageK3 Proofs.LineageK4 Proofs.LineageKEx.
 
 (* ------------------------------------------------------- the notions, unfolded *)
 
@@ -296,86 +296,6 @@ Theorem C07K_ev_linb_sound :
   forall ids e, ev_linb ids e = true -> ev_lin (fun k => exists n, k = KGen n /\ In n ids) e.
 Proof. exact ev_linb_sound. Qed.
 
-(* ------------------------------------------------------- the events of a step (PROVED, follow-up round)
-
-   K D k r: what may be written under ID k - if k is in D only a replaced-ID
-   record naming an ID of D, and any replaced-ID record names a generated ID with
-   a larger ordinal than k. EL D e: every save e (successful or not) writes such
-   a record under its key. evs_ok D s s': the call from s to s' appended events
-   all satisfying EL D (and store/graves of s' are those of s with them replayed). *)
-Theorem C07K_K_meaning :
-  forall D k r, K D k r <->
-  (D k -> exists t, r_ref r = Some t /\ D t) /\
-  (forall x, r_ref r = Some x -> exists m, x = KGen m /\ forall j, k = KGen j -> (j < m)%N).
-Proof. exact (fun D k r => iff_refl _). Qed.
-
-Theorem C07K_EL_meaning : forall D e, EL D e <-> match e with EvSave k r _ => K D k r | _ => True end.
-Proof. exact (fun D e => iff_refl _). Qed.
-
-Theorem C07K_evs_ok_meaning :
-  forall D s s', evs_ok D s s' <-> exists l, CrashFault.ext s s' l /\ Forall (EL D) l.
-Proof. exact (fun D s s' => iff_refl _). Qed.
-
-(* operation by operation, from a state satisfying the invariant between
-   operations (G (Q1 D): PF's inv, Kcs, PRs, RWs, Kp, QD - what LN D gives inside
-   a step): Start, RegenerateID, LogIn (exclusive or not), LogOut, Destroy and the
-   data operations (E_do_sop), creation, cache.Get/Set/Delete, the clean-up pass,
-   LogOut(userID) *)
-Theorem C07K_events_start :
-  forall D base s q, G (Q1 D) base s -> evs_ok D s (fst (fst (start s q))).
-Proof. exact E_start. Qed.
-
-Theorem C07K_events_regenerate :
-  forall D base s o s' res cks, G (Q1 D) base s -> hg s o -> regenerate s o = (s', res, cks) -> evs_ok D s s'.
-Proof. exact E_regenerate. Qed.
-
-Theorem C07K_events_login :
-  forall D base s o u ex, G (Q1 D) base s -> hg s o -> evs_ok D s (fst (fst (login s o u ex))).
-Proof. exact E_login. Qed.
-
-Theorem C07K_events_logout :
-  forall D base s o, G (Q1 D) base s -> hg s o -> evs_ok D s (fst (logout s o)).
-Proof. exact E_logout. Qed.
-
-Theorem C07K_events_handler_op :
-  forall D base s o hc op, G (Q1 D) base s -> hg s o -> evs_ok D s (fst (fst (do_sop s o hc op))).
-Proof. exact E_do_sop. Qed.
-
-Theorem C07K_events_create :
-  forall D base s q s' res cks, G (Q1 D) base s -> create_session s q = (s', res, cks) -> evs_ok D s s'.
-Proof. exact E_create. Qed.
-
-Theorem C07K_events_logout_user :
-  forall D base s u s' r, G (Q1 D) base s -> logout_user s u = (s', r) -> evs_ok D s s'.
-Proof. exact E_logout_user. Qed.
-
-Theorem C07K_events_fire_due : forall D s, evs_ok D s (fire_due s).
-Proof. exact E_fire_due. Qed.
-
-Theorem C07K_events_script :
-  forall D base hc ops s o, G (Q1 D) base s -> hg s o -> evs_ok D s (fst (fst (run_script s o hc ops))).
-Proof. exact E_run_script. Qed.
-
-(* whole request steps *)
-Theorem C07K_events_step :
-  forall D w r, LN D (w_st w) -> rq_plan r = [] -> Forall (EL D) (ob_evs (snd (step w (HReq (nocrash r))))).
-Proof. exact step_events. Qed.
-
-Theorem C07K_events : C07K_events_statement.
-Proof. exact events_proved. Qed.
-
-(* hence C07K_mid_crash_store_conditional without its condition: a crash after ANY
-   number of persistence calls of a fault-free request step *)
-Theorem C07K_mid_crash_store :
-  forall D w r n,
-  LN D (w_st w) -> rq_plan r = [] -> rq_crash r = Some n ->
-  pending (w_st (fst (step w (HReq r)))) = [] /\
-  forall k, D k ->
-    key_drawn (w_st (fst (step w (HReq r)))) k /\
-    (L (w_st (fst (step w (HReq r)))) k = None \/
-     exists rk t, L (w_st (fst (step w (HReq r)))) k = Some rk /\ r_ref rk = Some t /\ D t).
-Proof. exact mid_crash_store_any. Qed.
-
 (* the executable form of dead_answer used by the tests is sound *)
 Theorem C07K_dead_answerb_sound : forall o, dead_answerb o = true -> dead_answer o.
 Proof. exact dead_answerb_sound. Qed.
@@ -409,21 +329,6 @@ Print Assumptions C07K_events_statement_is.
 Print Assumptions C07K_crash_store.
 Print Assumptions C07K_mid_crash_store_conditional.
 Print Assumptions C07K_ev_linb_sound.
-Print Assumptions C07K_K_meaning.
-Print Assumptions C07K_EL_meaning.
-Print Assumptions C07K_evs_ok_meaning.
-Print Assumptions C07K_events_start.
-Print Assumptions C07K_events_regenerate.
-Print Assumptions C07K_events_login.
-Print Assumptions C07K_events_logout.
-Print Assumptions C07K_events_handler_op.
-Print Assumptions C07K_events_create.
-Print Assumptions C07K_events_logout_user.
-Print Assumptions C07K_events_fire_due.
-Print Assumptions C07K_events_script.
-Print Assumptions C07K_events_step.
-Print Assumptions C07K_events.
-Print Assumptions C07K_mid_crash_store.
 Print Assumptions C07K_dead_answerb_sound.
 (* non-vacuity (Proofs/LineageKEx.v): late crashes of a step with three ID changes
    (behind its last call) and of a step presenting a former ID (at its very
